@@ -180,6 +180,36 @@ pub fn families(prop: &str, tier: Tier) -> Vec<Family> {
             } else {
                 f.push(Family { stateless_depth: 0, name: "mode-graphs-3".into(), cfgs: mode_graphs(3, &lists[..3], 7), inputs: inputs(&['a', 'b', 'x'], 4), ops: ops.clone(), describe: "3 modes x 3 pattern lists each x every 7th of the 64^3 transition tables".into() });
             }
+            // the same through the WithPositions adapter (it forwards set_mode/current_mode/mode_name)
+            f.push(Family {
+                stateless_depth: 0,
+                name: "mode-graphs-2 through WithPositions".into(),
+                cfgs: mode_graphs(2, &lists[..4], 11),
+                inputs: inputs(&['a', 'b', 'x'], 3),
+                ops: OpSet { next: true, peeks: vec![], adv: vec![], offsets: Offsets::None, set_modes: true, with_positions: true, positions: false, with_offset_ops: false },
+                describe: "WithPositions<FindMatches> driven with next/set_mode on every 11th transition table of 4x4 pattern lists".into(),
+            });
+            // unusual numbers: token types at the u16/u32 borders in transitions, a mode without
+            // patterns as a transition target, a transition to the last mode, equal token types in
+            // all modes
+            let big = u32::MAX as usize;
+            let mut odd = vec![];
+            for (t0, t1) in [(65_536usize, big), (big, 65_535), (255, 256), (0, big)] {
+                odd.push(Cfg {
+                    modes: vec![
+                        CMode { name: "A".into(), pats: vec![CPat::new("a", t0), CPat::new("b", t1)], transitions: { let mut t = vec![(t0, 1), (t1, 2)]; t.sort(); t } },
+                        CMode { name: "EMPTY".into(), pats: vec![], transitions: vec![] },
+                        CMode { name: "C".into(), pats: vec![CPat::new("[ab]", t0), CPat::new("x", t1)], transitions: { let mut t = vec![(t0, 2), (t1, 0)]; t.sort(); t } },
+                    ],
+                });
+                odd.push(Cfg {
+                    modes: vec![
+                        CMode { name: "A".into(), pats: vec![CPat::new("a", t1), CPat::new("b", t0)], transitions: { let mut t = vec![(t0, 0), (t1, 1)]; t.sort(); t } },
+                        CMode { name: "B".into(), pats: vec![CPat::new("a", t1), CPat::new("b", t0)], transitions: vec![(t0.max(t1), 0)] },
+                    ],
+                });
+            }
+            f.push(Family { stateless_depth: 0, name: "unusual numbers".into(), cfgs: odd, inputs: inputs(&['a', 'b', 'x'], if q { 4 } else { 5 }), ops: ops.clone(), describe: "token types 255/256/65535/65536/u32::MAX in patterns and transitions, a mode without patterns as a target, self loops on the last mode".into() });
             // gaps: only next/set_mode driven (peek with unmatched characters is C11's)
             f.push(Family {
                 stateless_depth: 0,
@@ -196,7 +226,7 @@ pub fn families(prop: &str, tier: Tier) -> Vec<Family> {
                 stateless_depth: 0,
                 name: "with_positions".into(),
                 cfgs: newline_cfgs(),
-                inputs: inputs(&['a', 'b', '\n', 'é'], l),
+                inputs: { let mut v = inputs(&['a', 'b', '\n', 'é'], l); v.extend(inputs(&['a', '\r', '\n'], l)); v.sort(); v.dedup(); v },
                 ops: OpSet { next: true, peeks: vec![], adv: vec![], offsets: Offsets::Scanned, set_modes: true, with_positions: true, positions: true, with_offset_ops: false },
                 describe: "WithPositions<FindMatches>: next / set_offset(every already scanned boundary) / set_mode; position(o) for every o <= contiguously scanned prefix in every state".into(),
             });
